@@ -120,6 +120,9 @@ def cases():
                     b = shapes.build(nl, sk, ops, [5] * nl, [0] * (nl - 1), spelling, brackets, 0)
                     out.append((b.text, tuple(b.fc)))
     out.append(("[901]U[902]O[901]X[902]", ("901", "902")))
+    # the same key on both sides of an operator / repeated before another key occurs
+    for rep in ("[901]X[901]", "[901]U[901]", "[901]O[901]", "[902]U([901]X[901])", "([901]X[901])O[902]", "[901]U[901]O[902]", "[902]O[902]X[901]", "([901]U[902])X([901]U[903])"):
+        out.append((rep, tuple(sorted(set(__import__("re").findall(r"\[(\d+)\]", rep))))))
     out.append(("([901] ∧ [902]) ⊻ ([901] ∨ [903])", ("901", "902", "903")))
     _CASES[MAXLEAVES] = out
     return out
